@@ -1,17 +1,53 @@
 from props import job
 
+PKG = "payments/db"
+
 PROP = dict(
     level="exploration",
-    rule="tbd",
-    assumptions=[],
+    technique="rapid state machine + reference model + KV/SQL differential; goroutine stress under -race",
+    rule=("A case is one generated history of 8-40 calls (InitPayment, RegisterAttempt with MPP / "
+          "single-shot / blinded / blinded+MPP routes and matching or mismatching records, "
+          "SettleAttempt, FailAttempt, Fail, DeleteFailedAttempts, DeletePayment, DeletePayments, "
+          "FetchPayment, FetchInFlightPayments) over three payment hashes - including never "
+          "initiated / deleted hashes, unknown, already resolved, duplicate and foreign attempt ids, "
+          "amounts that fit exactly or exceed by one - executed call by call against the real "
+          "KVStore (bbolt) and the real SQLStore (sqlite) in one process. After every call both "
+          "stores are compared with a reference model written from payment_status.go's truth table "
+          "and the interface/errors.go comments (success vs refusal, documented error, resulting "
+          "state of every payment), with each other (hard: ok-vs-error, state, the four sentinels "
+          "callers branch on; soft: other error identities, counted only), and every MPPayment "
+          "handed back is checked against model-independent invariants (settled+in-flight <= value, "
+          "status == truth table of its own HTLCs/reason, State fields truthful, admission only "
+          "without settled attempt / failure reason, Init only from absent|Failed, Succeeded final, "
+          "Failed leaves only through Init). The concurrent test runs 2-4 writer goroutines on "
+          "disjoint payment hashes plus 1-2 readers; in the thorough tier under -race. "
+          "Non-trivial = the history reached ErrValueExceedsAmt, ErrPaymentPendingSettled or "
+          "ErrAlreadyPaid, or re-initiated a failed payment. Distinct = distinct call sequences "
+          "(attempt ids relative to the case)."),
+    assumptions=[
+        "attempt ids come from one node-wide sequencer: the same id is never offered to RegisterAttempt under two different payments (counted outside_domain); every attempt carries a fresh session key",
+        "calls for one payment hash are serialised by the caller (interface.go; control tower per-hash mutex): goroutines own disjoint hashes, same-hash races are not generated",
+        "both stores are shared by all cases of a process and emptied through their own API (DeletePayments / FailAttempt / Fail) before each case; bbolt's Batch coalescing delay is set to 0 in the sequential test (latency knob of the bbolt handle only) and left at its default in the concurrent test",
+        "error identity is compared only for the documented sentinels; backends returning different non-sentinel errors are counted as soft divergences, not violations",
+        "known findings C16:sql-settle-foreign-attempt and C16:kv-register-duplicate-attempt-id are excluded from generation by construction when listed as known; C16:sql-register-unknown-sentinel and C16:kv-delete-unknown-sentinel only suspend the sentinel comparison for that call",
+        "sqlite lock timeouts in the concurrent test make the case inconclusive (skipped and counted), never a violation",
+    ],
     jobs=dict(
         quick=[
-            job("payments/db", "^TestVerifC16Repro$", ["TestVerifC16Repro"], 1, shards=1),
-            job("payments/db", "^TestVerifC16Sequential$", ["TestVerifC16Sequential"], 400, shards=8),
-            job("payments/db", "^TestVerifC16Concurrent$", ["TestVerifC16Concurrent"], 30, shards=2),
+            job(PKG, "^TestVerifC16Repro$", ["TestVerifC16Repro"], 1, shards=1),
+            job(PKG, "^TestVerifC16Sequential$", ["TestVerifC16Sequential"], 350, shards=8),
+            job(PKG, "^TestVerifC16Concurrent$", ["TestVerifC16Concurrent"], 30, shards=2),
         ],
         thorough=[
-            job("payments/db", "^TestVerifC16Repro$", ["TestVerifC16Repro"], 1, shards=1),
+            job(PKG, "^TestVerifC16Repro$", ["TestVerifC16Repro"], 1, shards=1),
+            job(PKG, "^TestVerifC16Sequential$", ["TestVerifC16Sequential"], 2000, shards=12,
+                env=dict(VERIF_C16_OPS=60), timeout=1200),
+            # goroutines + readers, no race detector (10x the cases of the race job)
+            job(PKG, "^TestVerifC16Concurrent$", ["TestVerifC16Concurrent"], 150, shards=6,
+                env=dict(VERIF_C16_CONC_OPS=24), timeout=1200),
+            # the same under -race (modernc sqlite is ~10x slower when instrumented)
+            job(PKG, "^TestVerifC16Concurrent$", ["TestVerifC16Concurrent"], 40, shards=8,
+                race=True, env=dict(VERIF_C16_CONC_OPS=20, VERIF_C16_READS=80), timeout=1200),
         ],
     ),
 )
